@@ -3,8 +3,8 @@
    Vocabulary (Engine/HooksProofsTrace.v, HooksProofsGate.v):
    [exec p tr a]   program p runs to result a performing exactly the (effect, answer) pairs
                    of tr, in order — for ANY answers, i.e. for every cluster behaviour,
-                   storage fault and crash; every run of the interpreter Seq.run is one
-                   (C12_every_run_is_an_execution).
+                   storage fault and crash; the trace of every run of the interpreter
+                   Seq.run is one (C12_every_run_is_an_execution).
    [cview tr]      the creations (CCreate payload ok), hook watches (CWatch event hook ok),
                    deletions (CDelete payload ok) and updates of tr, in order;
    [cwview tr]     only its creations and hook watches.
@@ -60,11 +60,21 @@ Print Assumptions C12_selection.
 (* ------------------------------------------------------------------ *)
 (* executions                                                          *)
 
+(* [run_tr] is Seq.run returning also its trace of (effect, answer) pairs; that trace is an
+   execution, so every theorem below about "every execution" speaks about every run of the
+   interpreter under every handler, storage fault and crash point *)
+Theorem C12_run_tr_is_run :
+  forall (K : Type) (kh : forall e : eff, K -> K * resp e * list kev) (dresp : forall e, resp e)
+         (A : Type) (f : sfaults) (p : prog A) (s : rstate K),
+    fst (run_tr K kh dresp f p s) = run K kh dresp f p s.
+Proof. exact run_tr_run. Qed.
+Print Assumptions C12_run_tr_is_run.
+
 Theorem C12_every_run_is_an_execution :
   forall (K : Type) (kh : forall e : eff, K -> K * resp e * list kev) (dresp : forall e, resp e)
          (A : Type) (f : sfaults) (p : prog A) (s : rstate K),
-    exists tr, exec p tr (snd (run K kh dresp f p s)).
-Proof. exact run_is_exec. Qed.
+    exec p (snd (run_tr K kh dresp f p s)) (snd (fst (run_tr K kh dresp f p s))).
+Proof. exact run_tr_exec. Qed.
 Print Assumptions C12_every_run_is_an_execution.
 
 (* C12_order — in EVERY execution of execHook the hooks of the event are created one at a
